@@ -122,6 +122,11 @@ func c06MakeBlock(rng *fw.RNG, lsys *linking.LinkSystem) (c06Block, error) {
 				break
 			}
 		}
+		if rng.Chance(1, 4) {
+			// a block that is one scalar: its last token is the block's last write (bytes and links are the
+			// multi-token ones in dag-json)
+			v = model.GenScalar(rng, o)
+		}
 	}
 	hc := reflink.HashCodes[rng.Intn(len(reflink.HashCodes))]
 	ln := -1
@@ -655,6 +660,23 @@ func c06StoreSide(c *fw.Ctx, rng *fw.RNG, blk c06Block) {
 		c.Count("store_encoder_faults", 1)
 		if serr == nil || committed > 0 {
 			c.Deviate(fmt.Sprintf("C06:store-commits-after-encode-error:%#x", blk.codec), fmt.Sprintf("the node's iterator failed after %d entries, Store returned err=%v and the committer was called %d time(s)", k, serr, committed))
+		}
+	}
+	// ... and a node whose scalar accessors (values and map keys) fail as well, after every k accesses
+	for k := 0; k < 400; k++ {
+		committed = 0
+		w = &countingFailWriter{failAt: 1 << 30}
+		var serr error
+		flt := &fnode.Fault{After: k, Scalars: true}
+		if c.Guard("C06:Store", func() { _, serr = lsys.Store(linking.LinkContext{}, lp, fnode.NewFaulty(val, flt)) }) {
+			continue
+		}
+		if !flt.Fired {
+			break // the encoder finished before the k-th access
+		}
+		c.Count("store_encoder_scalar_faults", 1)
+		if serr == nil || committed > 0 {
+			c.Deviate(fmt.Sprintf("C06:store-commits-after-encode-error:%#x", blk.codec), fmt.Sprintf("the node's %d-th accessor call (iterators and scalar accessors counted) failed, Store returned err=%v and the committer was called %d time(s)", k, serr, committed))
 		}
 	}
 	// a kind the codec refuses (link in cbor/json, non-bytes in raw)
